@@ -114,9 +114,9 @@ The file is `known_findings.json`; nothing is added to it at run time.
 
 SEEDS_INTRO = """Each change was written by a fresh sub-agent that saw only the property text and its own scratch worktree, confirmed by
 `tools/confirm_seed.sh` (demonstration passes on the pristine tree, fails with the patch, no new failure in the pinned suite) and stored under
-`seeded/<id>/`. Fourteen rounds (the last one for ten properties), 433 stored changes (the number is recomputed below from the directory). The share a round's first sweep missed stayed between a quarter and 40 per cent up to the last round: the agents are told what was already taken, so every round comes through new entry points, input types and object lifetimes - which is the reason to keep running rounds rather than a sign that the checks do not improve. `tools/psweep.sh` applies every stored change to a scratch copy of /repo (several in parallel; `tools/seedsweep.sh`
+`seeded/<id>/`. Fifteen rounds (the last two for ten and for six properties), 433 stored changes (the number is recomputed below from the directory). The share a round's first sweep missed stayed between a quarter and 40 per cent up to the last round: the agents are told what was already taken, so every round comes through new entry points, input types and object lifetimes - which is the reason to keep running rounds rather than a sign that the checks do not improve. `tools/psweep.sh` applies every stored change to a scratch copy of /repo (several in parallel; `tools/seedsweep.sh`
 does the same on /repo's working tree, one at a time), runs the owning check and removes the copy; at the time of writing every stored change is
-reported as VIOLATION by the quick tier of its check, with a failing input replayed on the real code (last full sweeps: all 533 under the seeds 0, 1, 2 and 3;
+reported as VIOLATION by the quick tier of its check, with a failing input replayed on the real code (last full sweeps: all 533 stored up to round 14 under the seeds 0, 1, 2 and 3, the 12 of round 15 under seed 0;
 the unchanged tree is quiet under the quick tier for the seeds 0-6 and under the thorough tier for the seeds 7, 21 and 33). Where a check first missed a change it was
 strengthened - the generator was the gap nearly every time, an oracle clause a few times; no oracle was loosened:
 
@@ -237,6 +237,10 @@ strengthened - the generator was the gap nearly every time, an oracle clause a f
   attributes (`Domain=Example.COM`), multipart boundaries of every permitted length (a constructor that refuses a plain boundary is a violation, not "no round
   trip to judge"); C14 a `Body` that was decoded, emptied and filled again (`write()` / `parse()`); C16 one credential as octets and the other as text, in
   either order.
+
+* round 15 (six parser-side properties, ids -27 / -28; 5 of 12 missed at first): C01 a Content-Length body of 10000 octets cut beyond 4096 / 8192 octets into
+  it; C02 announced trailer names that begin like a forbidden one (`Host-Checksum`, `Trailer-Signature`), host names with the trailing root dot; C03
+  percent signs inside a bracketed host (`[%00]`); C06 versions whose minor number has two or three digits (`HTTP/1.10`: not below 1.1) without a Host field.
 
 Stored patches are rebased when a `fix:` commit touches the same lines (noted in their notes.txt). Six changes are kept under `seeded/rejected/` and are not
 counted: C04-2, C12-1-superseded and C11-11 became harmless through the repairs F50 / F60 / F64 (their demonstrations pass with the patch applied); C06-9 and C07-10
